@@ -44,6 +44,13 @@ def transformations(cfg, rng):
 def gen_case(rng, spec):
     from rv.gen import grammars as GG
 
+    if rng.random() < 0.05:
+        # scale: 10-16 nonterminals (two-digit names; the transformations generate many fresh ones), 6-10 terminals,
+        # a head with 8-12 alternatives, bodies up to 5, unary chains of depth 6+
+        bigR = rng.choice(["Q", "Float", "Boolean", "MaxTimes"])
+        g = GG.gen_big_grammar(rng, recursion=bigR != "Q")
+        return {"g": {k: g[k] for k in ("S", "V", "rules")}, "R": bigR, "maxlen": 1,
+                "xseed": rng.randrange(1 << 30), "rename": rng.choice([None, None, "int", "str", "tuple", "int0"]), "scale": "big-grammar"}
     tmpl = None
     if rng.random() < 0.35:
         tmpl = rng.choice(["useless", "dead_start", "empty_language", "unary_via_nullable", "nullable_cycle", "unary_cycle2"])
@@ -249,7 +256,9 @@ def run_case(case, ctx, mode):
     if not ok:
         return
     before = [(r.w, r.head, r.body) for r in cfg.rules]
-    strings = list(GG.strings_upto(g["V"], case["maxlen"]))
+    strings = GG.case_strings(g, case["maxlen"], case["xseed"], k=8, max_len=12)
+    if case.get("scale"):
+        ctx.shape["scale:" + case["scale"]] += 1
     want = None
     if mode == "language":
         try:
